@@ -491,3 +491,33 @@ B('c19-randrange-inclusive', 'C19', FUN, RINT, "        return Decimal(random.ra
 B('c19-shuffle-list-copy', 'C19', FUN, "    copied = copy.copy(container)", "    copied = list(container)")
 B('c19-explicit-signature', 'C19', FUN,
   "def _rand(*args):\n    if len(args) == 0:", "def _rand(*args):\n    n = len(args)\n    if n == 0:")
+
+# =============================================================================== C02
+M('c02-keys-view', 'C02', 'C02.R3', FUN, "    return list(value.keys())", "    return value.keys()")
+M('c02-items-view', 'C02', 'C02.R3', FUN, "    return list(value.items())", "    return value.items()")
+M('c02-match-object', 'C02', 'C02.R3', FUN, "    if m is None:\n        return None\n\n    return m.group(0)", "    return m")
+M('c02-enumerate-iterator', 'C02', 'C02.R3', FUN, "    return list(enumerate(container))", "    return enumerate(container)")
+M('c02-filter-iterator', 'C02', 'C02.R3', FUN, "        return list(filter(f, container))", "        return filter(f, container)")
+M('c02-type-entry', 'C02', 'C02.R3', FUN, "    'len': len,", "    'len': len,\n    'type': type,")
+M('c02-getattr-entry', 'C02', 'C02.R3', FUN, "    'len': len,", "    'len': len,\n    'getattr': getattr,")
+M('c02-open-entry', 'C02', 'C02.R3', FUN, "    'len': len,", "    'len': len,\n    'open': open,")
+M('c02-set-entry', 'C02', 'C02.R3', FUN, "    'len': len,", "    'len': len,\n    'set': set,")
+M('c02-eval-entry', 'C02', None, FUN, "    'len': len,", "    'len': len,\n    'calc': lambda s: eval(s),")
+M('c02-nameop-getattr', 'C02', 'C02.R1', AST, "            raise ParserError(f'Undefined variable {self.name}')\n\n        return value", "            raise ParserError(f'Undefined variable {self.name}')\n\n        return getattr(value, '__wrapped__', value)")
+M('c02-print-in-eval', 'C02', 'C02.R4', SQP, "        ast = self.parse(expr=expr.rstrip())", "        print(expr)\n        ast = self.parse(expr=expr.rstrip())")
+M('c02-lazy-import', 'C02', 'C02.R4', FUN, "    flags = _parse_flags(flags_str)\n    return regex.findall(", "    import re as _re  # noqa\n    flags = _parse_flags(flags_str)\n    return regex.findall(")
+M('c02-log-file', 'C02', 'C02.R4', SQP, "            self.lex.ast = None\n", "            self.lex.ast = None\n            open('/tmp/sq.log', 'a').write(expr)\n")
+M('c02-os-getenv', 'C02', 'C02.R4', edits=[
+  (FUN, "import random\n", "import random\nimport os\n"),
+  (FUN, "    else:\n        return str(value)", "    else:\n        return str(value) + os.getenv('SQ_SUFFIX', '')")])
+M('c02-valueop-returns-class', 'C02', 'C02.R3', AST, "        super().eval(state)\n        return self.v", "        super().eval(state)\n        return self.v.__class__ if self.v is None else self.v")
+M('c02-module-leak', 'C02', 'C02.R3', FUN, "    return regex.findall(pattern, s, flags=flags, timeout=REGEX_TIMEOUT)", "    return regex.findall(pattern, s, flags=flags, timeout=REGEX_TIMEOUT) or regex")
+M('c02-dot-attribute-node', 'C02', 'C02.R1', RUL, "        p[0] = CallOp(p[3], args=[p[1]])", "        p[0] = CallOp('getattr', args=[p[1], ValueOp(p[3])]) if p.slice[2].type == 'DOT' else CallOp(p[3], args=[p[1]])")
+M('c02-dynamic-callee-from-value', 'C02', 'C02.R2', AST, "        return f(*args)", "        return f(*args) if args else self.args[0].eval(state)()")
+M('c02-bound-method-entry', 'C02', 'C02.R3', FUN, "def keys(value: Any) -> list:\n    return list(value.keys())", "def keys(value: Any) -> list:\n    return value.keys")
+
+B('c02-capitalize-entry', 'C02', FUN, "    'lower': str.lower,", "    'lower': str.lower,\n    'capitalize': str.capitalize,")
+B('c02-keys-star', 'C02', FUN, "    return list(value.keys())", "    return [*value.keys()]")
+B('c02-keys-comprehension', 'C02', FUN, "    return list(value.keys())", "    return [k for k in value]")
+B('c02-format-entry', 'C02', FUN, "    'len': len,", "    'len': len,\n    'fmt': format,")
+B('c02-groups-tuple', 'C02', FUN, "    return [m.group(0), *m.groups()]", "    return (m.group(0),) + m.groups()")
